@@ -159,6 +159,37 @@ theorem reverseSweep_gradient (K S : ℕ) (Θ δΘ : Params R) (gates : List (PG
       = dforward Θ δΘ gates ψ0 δψ := funext fun x => (dforward_is_dual_derivative Θ δΘ gates ψ0 δψ x).2
   rw [e]; exact h
 
+/-! ## what the driver executes is what the theorems are about (array-level folds = modelled folds) -/
+
+section driver
+variable {α : Type} [Add α] [Mul α] [Zero α] [Conj α]
+
+/-- the driver's forward loop (`forwardA`: tabulate after every gate) computes `forward` -/
+theorem driver_forward_eq (Θ : Params α) (gates : List (PGate n α)) (a : Array α) :
+    lookup (n := n) (forwardA Θ gates a) = forward Θ gates (lookup a) := forwardA_eq Θ gates a
+
+/-- **the driver's reverse sweep (`backwardA`: states and gradient buffers as flat arrays) computes `backward`**, the subject of
+`reverseSweep_vjp` / `reverseSweep_gradient`.  Guard: the slot of every parametrised gate is a key of the gradient table
+(the driver rejects the op otherwise, `PGate.coveredB`), so no gradient can be dropped silently. -/
+theorem driver_backward_eq (Θ : Params α) (gates : List (PGate n α)) (init : StA α) (hc : ∀ g ∈ gates, g.Covered init.2.2) :
+    absSt (n := n) (backwardA Θ gates init) = backward Θ gates (absSt init) := (backwardA_eq Θ gates init hc).1
+
+omit [Add α] [Mul α] [Zero α] [Conj α] in
+theorem driver_guard_iff (tab : ParamTable α) (g : PGate n α) : g.coveredB tab = true ↔ g.Covered tab := coveredB_iff tab g
+
+/-- the driver's tabulated Sylvester loop computes `sylvBackward` (subject of `sqrtm_repeat_vjp`) on the `m × m` block -/
+theorem driver_sylvester_eq [Div α] [DecidableEq α] (m : ℕ) (V : ℕ → ℕ → α) (r : ℕ) (s : ℕ → α) (G : Array α) (i j : ℕ)
+    (hi : i < m) (hj : j < m) : ofTab m (sylvBackwardA m V r s G) i j = sylvBackward m V r s (ofTab m G) i j :=
+  sylvBackwardA_eq m V r s G i j hi hj
+
+end driver
+
+/-- the model's slot of a gate (`Src.param (repSlot …)`) identifies exactly the gates that `_setup` sends to the same
+`(name, row)` of the stacked tensors -/
+theorem repSlot_canonical (gs : List GateDesc) (i j : ℕ) (hi : i < gs.length) (p q : String × ℕ)
+    (h1 : slotOf gs i = some p) (h2 : slotOf gs j = some q) : repSlot gs i = repSlot gs j ↔ p = q :=
+  repSlot_eq_iff gs i j hi p q h1 h2
+
 /-! ## Knill–Laflamme inner product (`qec/_internal.py:150-189`) -/
 
 /-- **The Knill–Laflamme backward is the adjoint of the (sesquilinear) forward map**: with
@@ -192,6 +223,32 @@ theorem kl_vjp (L : ℕ) (ops : List (Op n R)) (hwf : ∀ g ∈ ops, g.WF) (hm :
       simp only [hO, hOd]; rfl
     simp only [T, hkl]
   rw [hS, hT]; exact this
+
+/-- **the Knill–Laflamme differential is derived, not postulated**: run the same `klForward` over the dual numbers at `q + ε·dq`
+(operators ε-free); its ε-coefficient is `⟪dq_i, O q_j⟫ + ⟪q_i, O dq_j⟫`, its ε⁰-coefficient the forward value. -/
+theorem kl_differential_dual (L : ℕ) (ops : List (Op n R)) (q dq : ℕ → Vec n R) (i j : ℕ) :
+    (klForward L (ops.map Op.liftD) (fun i x => dualOf (q i x) (dq i x)) i j).fst = klForward L ops q i j ∧
+    (klForward L (ops.map Op.liftD) (fun i x => dualOf (q i x) (dq i x)) i j).snd
+      = vdot (dq i) (applySeq ops (q j)) + vdot (q i) (applySeq ops (dq j)) :=
+  klForward_dual L ops q dq i j
+
+/-- **the Knill–Laflamme backward returns the gradient of `klForward`**: `Re Σ_ij conj(G_ij)·D y_ij[dq] = Re Σ_i ⟪grad_i, dq_i⟫`
+with `D y[dq]` *defined* as the ε-coefficient of `klForward` over `R[ε]/(ε²)`. -/
+theorem kl_gradient (L : ℕ) (ops : List (Op n R)) (hwf : ∀ g ∈ ops, g.WF) (hm : ∀ g ∈ ops, NoMeasure g)
+    (q dq : ℕ → Vec n R) (G : ℕ → ℕ → R) :
+    let S := ∑ i ∈ range L, ∑ j ∈ range L,
+      star (G i j) * (klForward L (ops.map Op.liftD) (fun i x => dualOf (q i x) (dq i x)) i j).snd
+    let T := ∑ i ∈ range L, vdot (klBackward L ops (dagRev ops) q G i) (dq i)
+    T + star T = S + star S := by
+  intro S T
+  have h := kl_vjp L ops hwf hm q dq G
+  simp only at h
+  have e : S = ∑ i ∈ range L, ∑ j ∈ range L,
+      star (G i j) * (vdot (dq i) (applySeq ops (q j)) + vdot (q i) (applySeq ops (dq j))) := by
+    simp only [S]
+    refine sum_congr rfl fun i _ => sum_congr rfl fun j _ => ?_
+    rw [(kl_differential_dual L ops q dq i j).2]
+  rw [e]; exact h
 
 /-- the forward value the backward pass differentiates: `klForward` is `⟪q_i, O q_j⟫` -/
 theorem klForward_eq (L : ℕ) (ops : List (Op n R)) (hwf : ∀ g ∈ ops, g.WF) (q : ℕ → Vec n R) (i j : ℕ) :
@@ -242,6 +299,38 @@ theorem sqrtm_repeat_vjp (V : ℕ → ℕ → F) (hV1 : (toMat m V)ᴴ * toMat m
     Matrix.trace ((toMat m G)ᴴ * δ) = Matrix.trace ((toMat m (sylvBackward m V r s G))ᴴ * dchain m V r s δ) :=
   sylvBackward_adjoint V hV1 hV2 r s hreal hg G δ
 
+/-- **singular inputs, the `tmp1[ind_zero…] = 0` branch**: when some roots are zero (guard: two *different* roots never sum to
+zero, i.e. at most one zero root for non-negative roots) the rule solves `S X + X S = G − V·K·V†`, `K` the zero-root diagonal of
+`V†GV` (one zero root `z`: `V K V† = P G P`, `P` the kernel projector).  With two zero roots the code computes `0/0` (inf/NaN). -/
+theorem sylvester_singular_solves (V G : ℕ → ℕ → F) (s : ℕ → F)
+    (hV1 : (toMat m V)ᴴ * toMat m V = 1) (hV2 : toMat m V * (toMat m V)ᴴ = 1)
+    (hoff : ∀ a b, a < m → b < m → a ≠ b → s a + s b ≠ 0) (hdiag : ∀ a, a < m → s a ≠ 0 → s a + s a ≠ 0) :
+    specMat m V s * toMat m (sylvStep m V s G) + toMat m (sylvStep m V s G) * specMat m V s
+      = toMat m G - toMat m V * kernelDiag m V G s * (toMat m V)ᴴ :=
+  sylvStep_singular V G s hV1 hV2 hoff hdiag
+
+/-- **on a rank-deficient input the returned gradient is the VJP restricted to the range**: exact for every perturbation `δS`
+without kernel–kernel component (`(V†·δS·V)_zz = 0` on the zero roots) — the directions in which `√·` is differentiable there. -/
+theorem sylvester_singular_vjp (V G : ℕ → ℕ → F) (s : ℕ → F)
+    (hV1 : (toMat m V)ᴴ * toMat m V = 1) (hV2 : toMat m V * (toMat m V)ᴴ = 1)
+    (hoff : ∀ a b, a < m → b < m → a ≠ b → s a + s b ≠ 0) (hdiag : ∀ a, a < m → s a ≠ 0 → s a + s a ≠ 0)
+    (hreal : ∀ a, star (s a) = s a) (δS : Matrix (Fin m) (Fin m) F)
+    (hδ : ∀ a : Fin m, s a.val = 0 → ((toMat m V)ᴴ * δS * toMat m V) a a = 0) :
+    Matrix.trace ((toMat m G)ᴴ * δS)
+      = Matrix.trace ((toMat m (sylvStep m V s G))ᴴ * (δS * specMat m V s + specMat m V s * δS)) :=
+  sylvester_singular_adjoint V G s hV1 hV2 hoff hdiag hreal δS hδ
+
+omit [DecidableEq F] in
+/-- **the differential of the square root is unique**: under the guard `δS ↦ δS·S + S·δS` is injective, so the `δS` paired with
+`G` in `sylvester_vjp` is *the* derivative of `A ↦ S` in the direction `δA` (implicit differentiation of `S·S = A`). -/
+theorem sqrtm_differential_unique (V : ℕ → ℕ → F) (s : ℕ → F)
+    (hV1 : (toMat m V)ᴴ * toMat m V = 1) (hV2 : toMat m V * (toMat m V)ᴴ = 1)
+    (hs : ∀ a b, a < m → b < m → s a + s b ≠ 0) (δ δ' : Matrix (Fin m) (Fin m) F)
+    (h : δ * specMat m V s + specMat m V s * δ = δ' * specMat m V s + specMat m V s * δ') : δ = δ' := by
+  have := sylvester_unique_aux V s hV1 hV2 hs (δ - δ') (by
+    rw [Matrix.sub_mul, Matrix.mul_sub]; rw [sub_add_sub_comm, h, sub_self])
+  exact sub_eq_zero.1 this
+
 omit [DecidableEq F] in
 theorem sqrtm_chain_is_squaring (V : ℕ → ℕ → F) (hV1 : (toMat m V)ᴴ * toMat m V = 1) (s : ℕ → F) :
     specMat m V s * specMat m V s = specMat m V (fun a => s a * s a) := specMat_sq V hV1 s
@@ -252,6 +341,42 @@ theorem sylvBackward_succ (V : ℕ → ℕ → F) (r : ℕ) (s : ℕ → F) (G :
     sylvBackward m V (r + 1) s G = sylvBackward m V r (fun a => s a * s a) (sylvStep m V s G) := rfl
 
 end sylvester
+
+/-! ## the forward map of the PSD square root (`_torch_psd_sqrtm_forward_repeat`), eigenvalue level -/
+
+section sqrtmforward
+open Channel
+variable {m : ℕ}
+
+/-- **forward map**: given the `eigh` contract (`V` unitary, real eigenvalues `ev`) the returned matrix is `V·diag(sqrt_EVL)·V†`
+with the saved roots `sqrt_EVL = storedRoots r ev`; one more square root squares back to the previous one, and with no root at all
+(`r = 0`) it is `V·diag(max(0,ev))·V†` — equal to the input `A = V·diag(ev)·V†` for PSD `A`.  So the saved `(sqrt_EVL, EVC)` are
+exactly the `(s, V)` of `sylvester_vjp` / `sqrtm_repeat_vjp`, and `δA = δS·S + S·δS` is the differential of *this* chain
+(`squaring_dual`). -/
+theorem sqrtm_forward_chain (V : ℕ → ℕ → ℂ) (hV1 : (toMat m V)ᴴ * toMat m V = 1) (ev : ℕ → ℝ) (r : ℕ) :
+    toMat m (psdSqrtmForward m V r (fun a => (ev a : ℂ))) = specMat m V (storedRoots r (fun a => (ev a : ℂ))) ∧
+    toMat m (psdSqrtmForward m V (r + 1) (fun a => (ev a : ℂ))) * toMat m (psdSqrtmForward m V (r + 1) (fun a => (ev a : ℂ)))
+      = toMat m (psdSqrtmForward m V r (fun a => (ev a : ℂ))) ∧
+    ((∀ a, 0 ≤ ev a) → toMat m (psdSqrtmForward m V 0 (fun a => (ev a : ℂ))) = specMat m V (fun a => (ev a : ℂ))) ∧
+    (∀ a, star (storedRoots r (fun a => (ev a : ℂ)) a) = storedRoots r (fun a => (ev a : ℂ)) a) := by
+  refine ⟨toMat_psdForward V r _, ?_, ?_, fun a => storedRoots_star r ev a⟩
+  · rw [toMat_psdForward, toMat_psdForward, specMat_sq V hV1]
+    congr 1
+    funext a; exact storedRoots_sq r ev a
+  · intro hev
+    rw [toMat_psdForward]
+    congr 1
+    funext a; exact storedRoots_zero ev hev a
+
+/-- `δA = δS·S + S·δS` is the ε-coefficient of `(S + ε·δS)²` over the dual numbers (and `S·S` the ε⁰-coefficient) -/
+theorem squaring_dual {R : Type} [CommRing R] (S δS : Matrix (Fin m) (Fin m) R) :
+    (∀ a b, (((Matrix.of fun a b => dualOf (S a b) (δS a b)) * (Matrix.of fun a b => dualOf (S a b) (δS a b))
+        : Matrix (Fin m) (Fin m) (DualNumber R)) a b).fst = (S * S) a b) ∧
+    (∀ a b, (((Matrix.of fun a b => dualOf (S a b) (δS a b)) * (Matrix.of fun a b => dualOf (S a b) (δS a b))
+        : Matrix (Fin m) (Fin m) (DualNumber R)) a b).snd = (δS * S + S * δS) a b) :=
+  sq_dual S δS
+
+end sqrtmforward
 
 /-! ## flat-parameter bridge (`optimize/_internal.py:8-40`) -/
 
